@@ -221,3 +221,15 @@ Theorem C15_run_records_applied_values :
 Proof. intro O. exact (run_records_applied_values (O:=O)). Qed.
 Print Assumptions C15_run_records_applied_values.
 
+
+Theorem C15_cget2_cset2 :
+  forall (O : Ops) (c : list (list (T O))) (i j : nat) (v : T O) (a b : nat),
+    cget2 (cset2 c i j v) a b = (if (Nat.eqb a i && Nat.eqb b j)%bool then v else cget2 c a b).
+Proof. intro O. exact (cget2_cset2 (O:=O)). Qed.
+Print Assumptions C15_cget2_cset2.
+
+Theorem C15_cset2_same_value :
+  forall (O : Ops) (c : list (list (T O))) (i j a b : nat),
+    cget2 (cset2 c i j (cget2 c i j)) a b = cget2 c a b.
+Proof. intro O. exact (cset2_same_value (O:=O)). Qed.
+Print Assumptions C15_cset2_same_value.
